@@ -15,6 +15,14 @@
 // the real httpproxy against a harness HTTP object store (zstd and
 // uncompressed layout); the real grpcproxy against a second, real in-process
 // bazel-remote.
+//
+// Three slices of cases: "main" (above); "fault" - the real httpproxy and
+// grpcproxy configurations again, with the back end answering the existence
+// check of some digests with a fault (error statuses, closed connections, slow
+// answers; fault.go); "binary" - the real executable, configured through
+// command-line flags, BAZEL_REMOTE_* environment variables and a YAML file,
+// with an HTTP back end, max_proxy_blob_size and a different max_blob_size,
+// asked over gRPC (binary.go).
 package c10
 
 import (
@@ -27,6 +35,7 @@ import (
 	"net/http"
 	"net/url"
 	"runtime"
+	"sort"
 	"strings"
 	"sync"
 	"sync/atomic"
@@ -40,7 +49,9 @@ import (
 	pb "github.com/buchgr/bazel-remote/v2/genproto/build/bazel/remote/execution/v2"
 
 	"github.com/klauspost/compress/zstd"
+	"google.golang.org/grpc"
 	"google.golang.org/grpc/codes"
+	"google.golang.org/grpc/credentials/insecure"
 	"google.golang.org/grpc/status"
 	"google.golang.org/protobuf/proto"
 )
@@ -64,11 +75,21 @@ type config struct {
 	canDelete bool   // the harness can remove an object from the back end
 	maxProxy  int
 
-	front  *lib.Server
-	fake   *lib.FakeProxy
-	store  *objStore
-	back   *lib.Server
-	filter *filterProxy
+	// Instances of the real executable (binary.go): how it is configured, and its
+	// max_blob_size (0 = not configured).
+	syntax   string // "" (in-process) | "flags" | "env" | "yaml"
+	maxBlob  int64
+	child    *lib.Child
+	dir      string
+	unusable string // why the instance could not be started (its cases are skipped; the run is inconclusive)
+
+	front     *lib.Server
+	fake      *lib.FakeProxy
+	store     *objStore
+	back      *lib.Server
+	filter    *filterProxy
+	gfaults   *grpcFaultInjector
+	proxyConn *grpc.ClientConn
 
 	pools [numPools][]*blob
 
@@ -76,10 +97,11 @@ type config struct {
 }
 
 func (c *config) hasBackend() bool { return c.backend != "none" }
+func (c *config) isBinary() bool   { return c.syntax != "" }
 
 // Table of configurations and the weighted order cases walk through it.
 func newConfigs() []*config {
-	return []*config{
+	cfgs := []*config{
 		{name: "none", keyName: "no-backend", storage: "zstd", backend: "none"},
 		{name: "fake", keyName: "fake", storage: "zstd", backend: "fake", sizeAware: true, canDelete: true},
 		{name: "http-zstd", keyName: "http-zstd", storage: "zstd", backend: "http", sizeAware: false, canDelete: true},
@@ -87,10 +109,30 @@ func newConfigs() []*config {
 		{name: "fake-raw", keyName: "fake", storage: "uncompressed", backend: "fake", sizeAware: true, canDelete: true},
 		{name: "http-raw", keyName: "http-raw", storage: "uncompressed", backend: "http", sizeAware: true, canDelete: true},
 		{name: "none-raw", keyName: "no-backend", storage: "uncompressed", backend: "none"},
+		// The real executable; the limits differ per instance, and max_blob_size always differs
+		// from max_proxy_blob_size (and is larger than every blob of the workload).
+		{name: "binary-flags", keyName: "binary-flags:http-zstd", storage: "zstd", backend: "http", canDelete: true,
+			syntax: "flags", maxProxy: maxProxyBlob, maxBlob: 1 << 20},
+		{name: "binary-env", keyName: "binary-env:http-raw", storage: "uncompressed", backend: "http", sizeAware: true, canDelete: true,
+			syntax: "env", maxProxy: 1500, maxBlob: 6000},
+		{name: "binary-yaml", keyName: "binary-yaml:http-zstd", storage: "zstd", backend: "http", canDelete: true,
+			syntax: "yaml", maxProxy: 2500, maxBlob: 0},
 	}
+	for _, c := range cfgs {
+		if c.maxProxy == 0 {
+			c.maxProxy = maxProxyBlob
+		}
+	}
+	return cfgs
 }
 
 var cfgOrder = []int{1, 0, 2, 3, 4, 5, 1, 6, 3, 5}
+
+// Configurations of the fault slice: the real proxies.
+var faultCfgs = []int{2, 5, 3}
+
+// Configurations of the binary slice.
+var binaryCfgs = []int{7, 8, 9}
 
 // blob is the harness's model of one stored object.
 type blob struct {
@@ -136,10 +178,15 @@ func poolOf(k kind) int {
 type world struct {
 	r    *lib.Run
 	cfgs []*config
+
+	mu      sync.Mutex
+	caseDur map[string]time.Duration // summed wall time of the cases, per slice and configuration
 }
 
 func (c *config) start() error {
-	c.maxProxy = maxProxyBlob
+	if c.isBinary() {
+		return c.startBinary()
+	}
 	o := lib.ServerOpts{MaxSize: cacheMaxSize, Storage: c.storage, MaxProxyBlobSize: int64(c.maxProxy)}
 	switch c.backend {
 	case "fake":
@@ -168,7 +215,17 @@ func (c *config) start() error {
 			return err
 		}
 		c.back = b
-		clients := grpcproxy.NewGrpcClients(b.Conn)
+		// The proxy's own connection to the back end, with the harness's fault injector on it
+		// (transparent for digests without a scripted fault).
+		c.gfaults = newGrpcFaultInjector()
+		conn, err := grpc.NewClient(b.GRPCAddr, grpc.WithTransportCredentials(insecure.NewCredentials()),
+			grpc.WithDefaultCallOptions(grpc.MaxCallRecvMsgSize(64*lib.MiB), grpc.MaxCallSendMsgSize(64*lib.MiB)),
+			grpc.WithChainUnaryInterceptor(c.gfaults.unary))
+		if err != nil {
+			return err
+		}
+		c.proxyConn = conn
+		clients := grpcproxy.NewGrpcClients(conn)
 		if err := clients.CheckCapabilities(c.storage == "zstd"); err != nil {
 			return fmt.Errorf("backend capabilities: %w", err)
 		}
@@ -186,8 +243,15 @@ func (c *config) start() error {
 }
 
 func (c *config) stop() {
+	if c.isBinary() {
+		c.stopBinary()
+		return
+	}
 	if c.front != nil {
 		c.front.Close()
+	}
+	if c.proxyConn != nil {
+		_ = c.proxyConn.Close()
 	}
 	if c.back != nil {
 		c.back.Close()
@@ -254,7 +318,12 @@ func (c *config) materialise(ctx context.Context, b *blob, content []byte) error
 		if c.filter != nil {
 			c.filter.keepOut(b.hash)
 		}
-		if err := c.front.Cache.Put(ctx, cache.CAS, b.hash, b.size, bytes.NewReader(content)); err != nil {
+		if c.isBinary() {
+			// (The executable writes through to the harness object store, which discards uploads.)
+			if err := c.upload(ctx, b.hash, content); err != nil {
+				return fmt.Errorf("front upload: %w", err)
+			}
+		} else if err := c.front.Cache.Put(ctx, cache.CAS, b.hash, b.size, bytes.NewReader(content)); err != nil {
 			return fmt.Errorf("front put: %w", err)
 		}
 	}
@@ -300,7 +369,11 @@ func (c *config) fillPools(r *lib.Run) error {
 		if needsBackend && !c.hasBackend() {
 			continue
 		}
-		for i := 0; i < poolSizes[p]; i++ {
+		count := poolSizes[p]
+		if c.isBinary() {
+			count = (count + 1) / 2 // fewer cases run against these instances
+		}
+		for i := 0; i < count; i++ {
 			var size int
 			switch p {
 			case pLocalBig, pBackendOver:
@@ -333,6 +406,9 @@ func (c *config) fillPools(r *lib.Run) error {
 // modelled state of every pool blob: a failure means the harness's model is
 // not what the server holds (eviction, failed set-up), i.e. the run cannot judge.
 func (c *config) verifyPools() string {
+	if c.isBinary() {
+		return c.verifyPoolsOnDisk()
+	}
 	snap := lib.Snapshot(c.front.Cache)
 	idx := make(map[string]int64, len(snap.Entries))
 	for _, e := range snap.Entries {
@@ -357,12 +433,14 @@ func (c *config) verifyPools() string {
 
 func run(r *lib.Run) {
 	r.SetRule("distinct tuple = (configuration [back end x storage mode], api [disk.Cache | gRPC], layout of position kinds, " +
-		"request length class, concurrent upload goroutines)")
-	r.Assume("back ends that cannot state sizes (HTTP back end in zstd layout) are not judged on 'holds the hash with another size' / 'larger than max_proxy_blob_size' positions (DESIGN C10 limits); those positions are counted under dontcare.*")
+		"request length class, concurrent upload goroutines); configurations include three instances of the real executable " +
+		"(flags / environment / YAML); cases with scripted back-end faults add (configuration, api, fault, layout, request length class)")
+	r.Assume("back ends that cannot state sizes (HTTP back end in zstd layout) are not judged on positions where the back end holds the hash with a size other than the requested one (DESIGN C10 limits); those positions are counted under dontcare.*. A requested size larger than max_proxy_blob_size that equals the size the back end holds is judged with every back end (missing unless stored locally)")
+	r.Assume("fault slice: a digest the back end does not hold is absent whatever the back end answers to the existence check (error status, closed connection, late answer), so it must be reported missing; a digest the back end holds but answers for with an error is not judged (dontcare.*backend-exact-faulty); a FindMissingBlobs call that fails as a whole while a fault is scripted reports nothing and is not judged (fault.call-error)")
 	r.Extra("race_build", raceEnabled)
 
 	t0 := time.Now()
-	w := &world{r: r, cfgs: newConfigs()}
+	w := &world{r: r, cfgs: newConfigs(), caseDur: map[string]time.Duration{}}
 	defer func() {
 		for _, c := range w.cfgs {
 			c.stop()
@@ -385,22 +463,33 @@ func run(r *lib.Run) {
 	}
 	swg.Wait()
 	bad := false
-	for _, e := range setupErr {
+	for i, e := range setupErr {
 		if e != "" {
 			r.Inconclusive(e)
-			bad = true
+			if w.cfgs[i].isBinary() {
+				// The other slices still run; this instance's cases are skipped and counted.
+				w.cfgs[i].unusable = e
+				r.Count("binary." + w.cfgs[i].syntax + ".not-started")
+			} else {
+				bad = true
+			}
 		}
 	}
 	if bad {
 		return
 	}
 	r.Extra("setup_s", time.Since(t0).Seconds())
+	var instances []string
+	for _, ci := range binaryCfgs {
+		instances = append(instances, w.cfgs[ci].describeBinary())
+	}
+	r.Extra("binary_instances", instances)
 
-	n := r.N(400, 10000)
+	n, nFault, nBinary := r.N(400, 10000), r.N(132, 1800), r.N(90, 1200)
 	if raceEnabled {
 		// The race build is there to watch the worker pool writing through pointers into the
 		// request slice; it is several times slower, so it gets a quarter of the thorough cases.
-		n = r.N(400, 2500)
+		n, nFault, nBinary = r.N(400, 2500), r.N(132, 450), r.N(90, 300)
 	}
 	workers := runtime.GOMAXPROCS(0) / 2
 	workers = max(2, min(workers, 8))
@@ -409,6 +498,8 @@ func run(r *lib.Run) {
 	}
 	r.Extra("workers", workers)
 	r.Extra("requests", n)
+	r.Extra("requests_fault_slice", nFault)
+	r.Extra("requests_binary_slice", nBinary)
 
 	ch := make(chan int)
 	var wg sync.WaitGroup
@@ -426,11 +517,48 @@ func run(r *lib.Run) {
 	}
 	close(ch)
 	wg.Wait()
+	r.Extra("main_slice_s", time.Since(t0).Seconds())
+
+	// The fault and binary slices.
+	specs := make(chan *caseSpec)
+	for i := 0; i < workers; i++ {
+		wg.Add(1)
+		go func() {
+			defer wg.Done()
+			for cs := range specs {
+				w.runCase(cs)
+			}
+		}()
+	}
+	for i := 0; i < max(nFault, nBinary); i++ {
+		if i < nFault {
+			specs <- genFaultCase(r.Seed, i, faultCfgs, w.cfgs)
+		}
+		if i < nBinary {
+			cs := genBinaryCase(r.Seed, i, binaryCfgs, w.cfgs)
+			if w.cfgs[cs.cfg].unusable != "" {
+				r.Count("binary." + w.cfgs[cs.cfg].syntax + ".cases-skipped")
+				continue
+			}
+			specs <- cs
+		}
+	}
+	close(specs)
+	wg.Wait()
 
 	// Post-conditions of the run as a whole.
 	for _, c := range w.cfgs {
+		if c.unusable != "" {
+			continue
+		}
 		if why := c.verifyPools(); why != "" {
 			r.Inconclusive("at the end: " + why)
+		}
+		if c.isBinary() {
+			c.finishBinary(r)
+		}
+		if hits := c.faultHits(); len(c.faultTable()) > 0 {
+			r.CountN("backend."+c.name+".fault-answers", hits)
 		}
 		if c.filter != nil {
 			r.CountN("backend."+c.name+".contains-calls", c.filter.contains.Load())
@@ -445,6 +573,28 @@ func run(r *lib.Run) {
 		}
 		if c.store != nil {
 			r.CountN("backend."+c.name+".http-heads", c.store.heads.Load())
+		}
+	}
+	secs := map[string]float64{}
+	for k, d := range w.caseDur {
+		secs[k] = float64(d.Milliseconds()) / 1000
+	}
+	r.Extra("summed_case_seconds", secs)
+	r.Extra("total_s", time.Since(t0).Seconds())
+	// Every slice must have been exercised: each instance of the executable and each fault.
+	for _, ci := range binaryCfgs {
+		c := w.cfgs[ci]
+		if c.unusable == "" && r.Counter("binary."+c.syntax+".cases") == 0 {
+			r.Inconclusive("binary slice: no case was judged against the instance configured through " + c.syntax)
+		}
+	}
+	for _, tbl := range [][]fault{httpFaults, grpcFaults} {
+		for _, f := range tbl {
+			if r.Counter("fault."+f.name+".cases") == 0 {
+				r.Inconclusive("fault slice: no case was judged with the back end fault " + f.name)
+			} else if !f.truthful && r.Counter("fault."+f.name+".absent.reported-missing")+r.Counter("fault."+f.name+".absent.reported-present") == 0 {
+				r.Inconclusive("fault slice: no absent digest was judged with the back end fault " + f.name)
+			}
 		}
 	}
 }
@@ -464,13 +614,16 @@ type rpos struct {
 	exp   expT
 	class string // <local class>+<back-end class>: the modelled state relative to the requested size
 	b     *blob
+	fault *fault // scripted for the back end's existence check of this digest
 }
 
 // expectation is the oracle for one digest, written from the property
 // statement: not missing iff stored locally with exactly the stated size (or
 // the empty blob), or held by the back end with that size and that size is
-// within max_proxy_blob_size.
-func (c *config) expectation(hash string, reqSize int64, b *blob) (expT, string) {
+// within max_proxy_blob_size. With a fault scripted for the back end's
+// existence check (f), a digest the back end holds in that way is not judged
+// unless the fault is a late but truthful answer.
+func (c *config) expectation(hash string, reqSize int64, b *blob, f *fault) (expT, string) {
 	local := false
 	lc := "not-local"
 	switch {
@@ -496,16 +649,20 @@ func (c *config) expectation(hash string, reqSize int64, b *blob) (expT, string)
 	case b == nil || !b.backend:
 	case b.size == reqSize && reqSize <= int64(c.maxProxy):
 		be, bc = expPresent, "backend-exact"
-	case b.size == reqSize:
-		bc = "backend-oversize"
-		if !c.sizeAware {
+		if f != nil && !f.truthful {
 			be = expDontCare
 		}
+	case b.size == reqSize:
+		// Larger than max_proxy_blob_size in the back end, and the request says so.
+		bc = "backend-oversize"
 	default:
 		bc = "backend-other-size"
 		if !c.sizeAware {
 			be = expDontCare
 		}
+	}
+	if f != nil && c.hasBackend() {
+		bc += "-faulty"
 	}
 	cl := lc + "+" + bc
 	if local {
@@ -538,6 +695,20 @@ func otherSize(n int64, variant int, api string, rng *rand.Rand) int64 {
 func readAll(rc io.ReadCloser) ([]byte, error) {
 	defer func() { _ = rc.Close() }()
 	return io.ReadAll(rc)
+}
+
+// fetchVia maps the generated way of pulling a blob in onto one the configuration
+// offers (the executable has no Go API).
+func (c *config) fetchVia(via int) int {
+	if c.isBinary() {
+		switch via {
+		case fetchAPIUnknown:
+			return fetchHTTPGet
+		case fetchAPIKnown:
+			return fetchBSRead
+		}
+	}
+	return via
 }
 
 // fetch pulls a back-end-only blob into the front end's local cache through a read.
@@ -609,6 +780,11 @@ func (cr *caseRun) resolve(ctx context.Context) error {
 			continue
 		case kAbsent:
 			rp.d = &pb.Digest{Hash: lib.RandHash(cr.rng), SizeBytes: int64(ps.size)}
+		case kAbsentFault:
+			rp.d = &pb.Digest{Hash: lib.RandHash(cr.rng), SizeBytes: int64(ps.size)}
+			tbl := cfg.faultTable()
+			rp.fault = &tbl[ps.fault%len(tbl)]
+			cfg.faultSet(rp.d.Hash, rp.fault, ps.faultLen)
 		case kEmpty:
 			rp.d = &pb.Digest{Hash: lib.EmptySha256, SizeBytes: 0}
 		case kEmptyWrong:
@@ -632,11 +808,17 @@ func (cr *caseRun) resolve(ctx context.Context) error {
 				if err := cfg.materialise(ctx, b, content); err != nil {
 					return err
 				}
+				if ps.kind == kBackendFault {
+					tbl := cfg.faultTable()
+					rp.fault = &tbl[ps.fault%len(tbl)]
+					cfg.faultSet(b.hash, rp.fault, ps.faultLen)
+				}
 				if ps.kind == kFetched || ps.kind == kFetchedMis {
-					if cfg.fetch(ctx, b, content, ps.fetchVia) {
+					via := cfg.fetchVia(ps.fetchVia)
+					if cfg.fetch(ctx, b, content, via) {
 						cfg.fetchOK.Add(1)
-						r.Count("fetch." + cfg.name + "." + fetchNames[ps.fetchVia] + ".ok")
-						b.local, b.fetched, b.via = true, true, ps.fetchVia
+						r.Count("fetch." + cfg.name + "." + fetchNames[via] + ".ok")
+						b.local, b.fetched, b.via = true, true, via
 						if cfg.canDelete && (ps.del || ps.kind == kFetchedMis) {
 							cfg.backendDelete(b.hash)
 							b.backend = false
@@ -645,7 +827,7 @@ func (cr *caseRun) resolve(ctx context.Context) error {
 						// The read did not deliver the blob: its local state is unknown, so this
 						// position cannot be judged (not a C10 matter).
 						cfg.fetchFail.Add(1)
-						r.Count("fetch." + cfg.name + "." + fetchNames[ps.fetchVia] + ".failed")
+						r.Count("fetch." + cfg.name + "." + fetchNames[via] + ".failed")
 						rp.b = b
 						rp.d = &pb.Digest{Hash: b.hash, SizeBytes: b.size}
 						rp.exp, rp.class = expDontCare, "fetch-failed"
@@ -665,7 +847,7 @@ func (cr *caseRun) resolve(ctx context.Context) error {
 			}
 			rp.d = &pb.Digest{Hash: b.hash, SizeBytes: req}
 		}
-		rp.exp, rp.class = cfg.expectation(rp.d.Hash, rp.d.SizeBytes, rp.b)
+		rp.exp, rp.class = cfg.expectation(rp.d.Hash, rp.d.SizeBytes, rp.b, rp.fault)
 	}
 	return nil
 }
@@ -741,6 +923,11 @@ func dstr(d *pb.Digest) string {
 func (w *world) runCase(cs *caseSpec) {
 	r := w.r
 	cfg := w.cfgs[cs.cfg]
+	defer func(t0 time.Time) {
+		w.mu.Lock()
+		w.caseDur[cs.slice+"/"+cfg.name] += time.Since(t0)
+		w.mu.Unlock()
+	}(time.Now())
 	cr := &caseRun{w: w, cs: cs, cfg: cfg, rng: rand.New(rand.NewPCG(cs.seed, 1))}
 	ctx, cancel := lib.Ctx()
 	defer cancel()
@@ -777,13 +964,31 @@ func (w *world) runCase(cs *caseSpec) {
 	stopTraffic()
 
 	base := "C10:" + cfg.keyName
+	// The faults scripted in this case (name -> positions).
+	faultsOf := map[string]int{}
+	for i := range cr.pos {
+		if f := cr.pos[i].fault; f != nil {
+			faultsOf[f.name]++
+		}
+	}
 	witness := func(extra map[string]any) map[string]any {
 		m := map[string]any{
-			"case": cs.idx, "config": cfg.name, "storage": cfg.storage, "backend": cfg.backend, "api": cs.api,
+			"case": cs.idx, "slice": cs.slice, "config": cfg.name, "storage": cfg.storage, "backend": cfg.backend, "api": cs.api,
 			"layout": cs.layout, "length": cs.n, "traffic_goroutines": cs.traffic, "traffic_via": cs.via,
 			"max_proxy_blob_size": cfg.maxProxy, "shared_duplicate_pointers": cs.sharePtr && cs.api == "disk",
-			"kinds": cs.layoutString(), "kind_codes": "L local, G local>limit, X both, B backend, E backend=limit, - absent, l local other size, x both other size, b backend other size, O backend>limit, o backend>limit small request, 0 empty, z empty hash size>0, F fetched, f fetched other size, D duplicate",
+			"kinds": cs.layoutString(), "kind_codes": kindCodeLegend,
 			"response_length": len(resp),
+		}
+		if cfg.isBinary() {
+			m["executable"] = cfg.describeBinary()
+		}
+		if len(faultsOf) > 0 {
+			names := make([]string, 0, len(faultsOf))
+			for n := range faultsOf {
+				names = append(names, n)
+			}
+			sort.Strings(names)
+			m["backend_faults"] = names
 		}
 		for k, v := range extra {
 			m[k] = v
@@ -794,6 +999,15 @@ func (w *world) runCase(cs *caseSpec) {
 	if err != nil {
 		if ctx.Err() != nil || status.Code(err) == codes.DeadlineExceeded || errors.Is(err, context.DeadlineExceeded) {
 			r.Inconclusive(fmt.Sprintf("case %d (%s/%s): call timed out: %v", cs.idx, cfg.name, cs.api, err))
+			return
+		}
+		if cfg.isBinary() && cfg.child.Exited() {
+			r.Inconclusive(fmt.Sprintf("case %d (%s): the executable is gone: %v", cs.idx, cfg.name, err))
+			return
+		}
+		if len(faultsOf) > 0 {
+			// The back end misbehaves: a call failing as a whole reports nothing (present or missing).
+			r.Count("fault.call-error." + cfg.name)
 			return
 		}
 		r.Eval()
@@ -807,6 +1021,14 @@ func (w *world) runCase(cs *caseSpec) {
 	r.Distinct(cfg.name, "|", cs.api, "|", cs.layout, "|", cs.lenClass, "|", cs.traffic)
 	counts := map[string]int64{}
 	counts["case."+cfg.name+"."+cs.api]++
+	counts["slice."+cs.slice+".cases"]++
+	if cfg.isBinary() {
+		counts["binary."+cfg.syntax+".cases"]++
+	}
+	for name := range faultsOf {
+		counts["fault."+name+".cases"]++
+		r.Distinct(cfg.name, "|", cs.api, "|fault|", name, "|", cs.layout, "|", cs.lenClass)
+	}
 	counts["len."+cs.lenClass]++
 	counts["layout."+cs.layout]++
 	counts[fmt.Sprintf("traffic.goroutines=%d", cs.traffic)]++
@@ -870,6 +1092,16 @@ func (w *world) runCase(cs *caseSpec) {
 			rep = "reported-missing"
 		}
 		counts["kind."+rp.kind.String()]++
+		if rp.fault != nil {
+			held := "absent."
+			if rp.b != nil && rp.b.backend {
+				held = "held."
+			}
+			counts["fault."+rp.fault.name+"."+held+rep]++
+		}
+		if cfg.isBinary() {
+			counts["binary."+cfg.syntax+"."+rp.class+"."+rep]++
+		}
 		if rp.exp == expDontCare {
 			dontCares++
 			counts["dontcare."+cfg.name+"."+rp.class+"."+rep]++
@@ -881,6 +1113,9 @@ func (w *world) runCase(cs *caseSpec) {
 		}
 		violations++
 		key := base + ":" + rp.class + ":" + rep
+		if rp.fault != nil {
+			key = base + ":" + rp.class + ":" + rp.fault.name + ":" + rep
+		}
 		if flagged[key] {
 			continue // one witness per class and case
 		}
@@ -889,6 +1124,9 @@ func (w *world) runCase(cs *caseSpec) {
 			"position": i, "position_in_batch": i % batch, "batch": i / batch, "kind": cs.pos[i].kind.String(),
 			"resolved_kind": rp.kind.String(), "digest": dstr(orig[i]), "state": rp.class, "expected": map[expT]string{expPresent: "not missing", expMissing: "missing"}[rp.exp],
 			"observed": rep,
+		}
+		if rp.fault != nil {
+			det["backend_fault"] = rp.fault.name
 		}
 		if rp.b != nil {
 			det["stored_size"] = rp.b.size
@@ -903,7 +1141,11 @@ func (w *world) runCase(cs *caseSpec) {
 			det["request"] = digestList(orig, 60)
 			det["response"] = digestList(resp, 60)
 		}
-		r.Violation(key, fmt.Sprintf("%s [%s, %s api, length %d, position %d]: digest in state %s was %s", cfg.name, cfg.backend, cs.api, cs.n, i, rp.class, rep), witness(det))
+		what := fmt.Sprintf("%s [%s, %s api, length %d, position %d]: digest in state %s was %s", cfg.name, cfg.backend, cs.api, cs.n, i, rp.class, rep)
+		if rp.fault != nil {
+			what += " (back end fault: " + rp.fault.name + ")"
+		}
+		r.Violation(key, what, witness(det))
 	}
 
 	// Independent formulation (no alignment): when every position is judged, the response
@@ -971,7 +1213,7 @@ func (w *world) runCase(cs *caseSpec) {
 			missing++
 		}
 	}
-	r.Sample(map[string]any{"case": cs.idx, "config": cfg.name, "api": cs.api, "layout": cs.layout, "length": cs.n,
+	r.Sample(map[string]any{"case": cs.idx, "slice": cs.slice, "config": cfg.name, "api": cs.api, "layout": cs.layout, "length": cs.n,
 		"traffic_goroutines": cs.traffic, "kinds": truncate(cs.layoutString(), 100), "reported_missing": missing})
 }
 
